@@ -250,6 +250,7 @@ static inline void myth_tls_key_allocator_init(myth_tls_key_allocator_t * s) {
   }
   s->keys[myth_tls_n_keys - 1].next = 0;
   s->free = &s->keys[0];
+  myth_spin_init_body(&s->lock);
 }
 
 static inline void myth_tls_key_allocator_fini(myth_tls_key_allocator_t * s) {
@@ -269,6 +270,10 @@ static inline void myth_tls_fini() {
 static inline int
 myth_tls_key_allocator_alloc(myth_tls_key_allocator_t * s,
 			     myth_tls_destructor_fun_t destructor) {
+  /* the pop must not be interleaved with another pop/push: with a bare CAS, a
+     creator preempted between reading the head's successor and its CAS could
+     publish a live cell as the new head (ABA) and the key was handed out twice */
+  myth_spin_lock_body(&s->lock);
   while (1) {
     /* try to pull the element from the free list */
     MYTH_VERIF_POINT(mythv_p_key_load, s->free);
@@ -281,9 +286,11 @@ myth_tls_key_allocator_alloc(myth_tls_key_allocator_t * s,
 	MYTH_VERIF_POINT(mythv_p_key_mark, ke->next);
 	ke->next = (myth_tls_key_entry_t *)-1;
 	ke->destructor = destructor;
+	myth_spin_unlock_body(&s->lock);
 	return ke - s->keys;
       }
     } else {
+      myth_spin_unlock_body(&s->lock);
       return -1;
     }
   }
@@ -296,8 +303,10 @@ myth_tls_key_allocator_dealloc(myth_tls_key_allocator_t * s, int key) {
     return (myth_tls_destructor_fun_t)-1;
   }
   myth_tls_key_entry_t * ke = &s->keys[key];
+  myth_spin_lock_body(&s->lock);
   /* make sure the key is being used */
   if (ke->next != (myth_tls_key_entry_t *)-1) {
+    myth_spin_unlock_body(&s->lock);
     return (myth_tls_destructor_fun_t)-1;
   }
   myth_tls_destructor_fun_t f = ke->destructor;
@@ -308,6 +317,7 @@ myth_tls_key_allocator_dealloc(myth_tls_key_allocator_t * s, int key) {
     MYTH_VERIF_POINT(mythv_p_key_mark, ke->next);
     ke->next = head;
     if (__sync_bool_compare_and_swap(&s->free, head, ke)) {
+      myth_spin_unlock_body(&s->lock);
       return f;
     }
   }
